@@ -6,7 +6,7 @@ use std::fs::create_dir_all;
 use std::sync::Arc;
 use std::thread;
 use std::thread::JoinHandle;
-use std::time::{Duration, UNIX_EPOCH};
+use std::time::{Duration, SystemTime, UNIX_EPOCH};
 
 use serde::{Deserialize, Serialize};
 
@@ -34,6 +34,15 @@ struct CachedFileInfo {
     file_len: FileLen,
     data_len: FileLen,
     hash: FileHash,
+}
+
+/// Milliseconds since the Unix epoch. Times before the epoch are negative numbers
+/// stored in two's complement, so that distinct times stay distinct.
+fn timestamp_ms(time: SystemTime) -> u64 {
+    match time.duration_since(UNIX_EPOCH) {
+        Ok(d) => d.as_millis() as u64,
+        Err(e) => (e.duration().as_millis() as u64).wrapping_neg(),
+    }
 }
 
 type InnerCache = typed_sled::Tree<Key, CachedFileInfo>;
@@ -97,12 +106,10 @@ impl HashCache {
         hash: FileHash,
     ) -> Result<(), Error> {
         let value = CachedFileInfo {
-            modified_timestamp_ms: file
-                .modified()
-                .map_err(|e| format!("Unable to get file modification timestamp: {e}"))?
-                .duration_since(UNIX_EPOCH)
-                .unwrap_or(Duration::ZERO)
-                .as_millis() as u64,
+            modified_timestamp_ms: timestamp_ms(
+                file.modified()
+                    .map_err(|e| format!("Unable to get file modification timestamp: {e}"))?,
+            ),
             file_len: file.len(),
             data_len,
             hash,
@@ -138,12 +145,11 @@ impl HashCache {
             None => return Ok(None), // not found in cache
         };
 
-        let modified = metadata
-            .modified()
-            .map_err(|e| format!("Unable to get file modification timestamp: {e}"))?
-            .duration_since(UNIX_EPOCH)
-            .unwrap_or(Duration::ZERO)
-            .as_millis() as u64;
+        let modified = timestamp_ms(
+            metadata
+                .modified()
+                .map_err(|e| format!("Unable to get file modification timestamp: {e}"))?,
+        );
 
         if value.modified_timestamp_ms != modified || value.file_len != metadata.len() {
             Ok(None) // found in cache, but the file has changed since it was cached
